@@ -368,6 +368,30 @@ def sOpt : St := (step sA (.updateClient 0 .top { h := 4, cons := ⟨5, 40, 1⟩
 example : (step sOpt (.core (.update { ra := 0, sender := 0, start := 4, num := 1, rev := 0, last := false, bds := bds 4 1 }) [(77, some 40)])).2 = .msg .root := by decide
 example : (step sOpt (upd 0 0 4 1)).2 = .ok := by decide
 
+
+/- The next-sequencer-hash component of the agreement is checked by the same two validators (`compat`), so
+   `later_conflict_rejected_header` and the validation path of state updates cover it step by step; it is
+   not part of `AgreeInv` because the next sequencer of a height is read from the state info *as it is
+   when the later item arrives*.  One path writes a consensus state without that check: -/
+
+/-- rollapp 0 with sequencers a0 (proposer), a1, a2; canonical client; fork at height 3; a1 and a2 opt in
+    (a1 becomes proposer), a1 serves its notice; the first state update of the new revision is a1's last
+    block (successor a2) -/
+def opsC : List Op := mkRa 0 0 ++ [.core (.fund 1 100000) [], .core (.fund 2 100000) [], .core (.createSeq 1 0 2000 true) [],
+  .core (.createSeq 2 0 1000 true) [], upd 0 0 1 3, .core (.bridge 0 1) [], .createClient 0 expParams 2 ⟨3, 20, 1⟩, .setCanonical 0,
+  .core (.fraud true 0 3 0 none none) [], .core (.optIn 1 true) [], .core (.optIn 2 true) [], .core (.unbond 1) [],
+  .core (.begin_ 3000000000) [], .core (.end_ []) [],
+  .core (.update { ra := 0, sender := 1, start := 3, num := 1, rev := 1, last := true, bds := bds 3 1 }) [(4, some 30)]]
+def sC : St := run (init P0) opsC
+
+/-- **resolve_fork_next_validators_counterexample** (monitor `C09/later_conflict_rejected/fork-resolution-writes-disagreeing-consensus-state`):
+    `ResolveHardFork` writes the consensus state of height 3 with the hash of the creator a1, while the state
+    info says the next sequencer of height 3 is a2. -/
+theorem resolve_fork_next_validators_counterexample :
+    ((getClient sC 0).bind fun cl => (getCons cl 3).map (·.nextVal)) = some (valHash 1) ∧
+    ((Core.getRa sC.core 0).bind fun r => r.states.getLast?.map fun st => (st.creator, st.next, st.start, st.last)) = some (1, .addr 2, 3, 3) ∧
+    ((getClient sC 0).map (·.frozen)) = some false := by decide
+
 -- ================================================================================================
 -- 5. signer_rules
 -- ================================================================================================
